@@ -26,6 +26,13 @@ import cdd.pydantic.emit, cdd.json_schema.emit, cdd.sqlalchemy.emit, cdd.docstri
 from cdd.shared.source_transformer import to_code
 from cdd.shared.pure_utils import SetEncoder
 
+ROUTES_MODEL = "\n".join([
+    "from sqlalchemy import Boolean, Column, Integer, String", "from sqlalchemy.orm import declarative_base", "",
+    "Base = declarative_base()", "", "", "class Config(Base):", '    """', "    Config record", "",
+    "    :cvar dataset_name: [PK] name of dataset", "    :cvar size: how big", '    """', "", '    __tablename__ = "config_tbl"', "",
+    '    dataset_name = Column(String, doc="name of dataset", primary_key=True)', '    size = Column(Integer, doc="how big", nullable=True)', ""])
+
+
 def quiet(f, *a, **k):
     try:
         with contextlib.redirect_stderr(io.StringIO()), contextlib.redirect_stdout(io.StringIO()):
@@ -106,6 +113,20 @@ try:
     from cdd.sqlalchemy.utils.emit_utils import update_with_imports_from_columns
     r = quiet(update_with_imports_from_columns, fn)
     out["phase1"] = open(fn).read() if not isinstance(r, str) else r
+finally:
+    shutil.rmtree(d, ignore_errors=True)
+# T6: gen_routes / upsert_routes into an existing routes file that has none of the requested routes yet
+d = tempfile.mkdtemp(prefix="verif-c10-")
+try:
+    from cdd.compound.openapi.gen_routes import gen_routes, upsert_routes
+    mp, rp = os.path.join(d, "models.py"), os.path.join(d, "routes.py")
+    open(mp, "w").write(ROUTES_MODEL)
+    open(rp, "w").write("from bottle import Bottle, request, response\n\nrest_api = Bottle(catchall=False, autojson=True)\n\n")
+    def _routes():
+        routes, pk = gen_routes(app="rest_api", model_path=mp, model_name="Config", crud="CRD", route="/api/config")
+        upsert_routes(app="rest_api", routes=routes, routes_path=rp, route="/api/config", primary_key=pk)
+        return open(rp).read()
+    out["routes_upsert"] = quiet(_routes)
 finally:
     shutil.rmtree(d, ignore_errors=True)
 print("@@" + json.dumps(out))
